@@ -260,22 +260,31 @@ func (l *BlockchainRpcTxWatcher) AddWaitForCsvTx(swapId, txId string, vout uint3
 	if err != nil {
 		log.Infof("[TxWatcher] checkTxAboveCsvHeight returned: %s", err.Error())
 	}
-	if above {
-		err = l.csvPassedCallback(swapId)
-		if err == nil {
-			log.Infof("Swap %s already past CSV limit", swapId)
-			return
-		}
-		log.Infof("csv passed callback error: %v", err)
-	}
 
 	l.Lock()
-	defer l.Unlock()
 	l.csvtxWatchList[swapId] = &SwapTxInfo{
 		TxId:                txId,
 		TxVout:              vout,
 		Csv:                 csv,
 		StartingBlockHeight: startingBlockheight,
+	}
+	callback := l.csvPassedCallback
+	l.Unlock()
+
+	if above && callback != nil {
+		// The caller usually is an event handler of this very swap and holds
+		// the swap's mutex, and the callback sends an event to the same swap:
+		// it must not run on the caller's goroutine. The tx stays in the watch
+		// list until the callback succeeded, so that a failed callback is
+		// tried again on the next block.
+		go func() {
+			if err := callback(swapId); err != nil {
+				log.Infof("csv passed callback error: %v", err)
+				return
+			}
+			log.Infof("Swap %s already past CSV limit", swapId)
+			l.TxClaimed([]string{swapId})
+		}()
 	}
 }
 
